@@ -361,6 +361,10 @@ func (w *writer) node(n *Node, last bool) {
 		w.expr(n.Kids[1], 0, false)
 		w.t(1, ":")
 		w.expr(n.Kids[2], 0, last)
+	case KRaw:
+		w.t(1, "(")
+		w.raw(n.Str)
+		w.t(0, ")")
 	case KParen:
 		w.t(1, "(")
 		w.push(true)
